@@ -36,7 +36,7 @@ SWEEP_SET = {
     'thorough': 'as quick, plus two-operation bases (fault in the second operation) and comment headers',
 }
 CLEANUP_SITES = ('os.unlink', 'os.access')
-COMPILE_WORLDS = False
+COMPILE_WORLDS = True
 
 WRITERS = ['file', 'filejson', 'py', 'pynocompile']
 DESTS = ['missing', 'empty', 'populated']
